@@ -1,12 +1,19 @@
-import RlibModel.Lemmas.Fft
+import RlibModel.Lemmas.FftExact
 /-!
 # C04 — FFT multiplication exact inside the precision envelope, independent of the object's history
 
 Property theorems only.  Model: `Model/Fft.lean` (polymorphic in an arithmetic record `Arith K` with NO
 laws; the driver runs it on IEEE binary64/binary32, `Model/FftFloat.lean`), lemmas: `Lemmas/Fft.lean`.
 
-**Level A** — everything in this section holds for EVERY carrier `K` and EVERY `Arith K`, hence bit for
+**Level A** — everything in the first section holds for EVERY carrier `K` and EVERY `Arith K`, hence bit for
 bit for `f32`/`f64` with whatever `sin`/`cos` the platform provides.
+
+**Level B** — the second section instantiates the same model with exact complex arithmetic (`arithC`:
+`K = ℂ`, `tw i cur = (cos x, sin x)`, `x = π·i/cur`, `round` exact on integers) and proves that the iterative
+transform is the DFT and that `multiply` / `multiply_into` return / add exactly the integer convolution.
+
+**Not proved (tested, see `checks/C04.py`)**: that the IEEE rounding error of this operation sequence stays
+below 0.5 inside the envelope, and the accuracy of libm `sin`/`cos`.
 -/
 namespace Rlib.C04
 open Rlib.Fft
@@ -125,6 +132,76 @@ theorem multiply_exact_partial (A : Arith K) (h : List (Op K)) (a b : Array Int)
     fun ha hb => multiply_len A _ a b ha hb⟩
   rw [multiply_into_adds, multiply_history_independent]
 
+/-! ## Level B — exact arithmetic -/
+
+section LevelB
+open Complex
+
+/-- The executable convolution the driver prints as the specification is the mathematical one:
+    coefficient `u` is `∑_{s+t=u} a_s b_t`. -/
+theorem conv_spec (a b : Array Int) : conv a b = convSpec a b := conv_eq_convSpec a b
+
+/-- In exact arithmetic the canonical twiddle table consists of the roots of unity `e^{2πi·j/2^k}`. -/
+theorem twiddles_are_roots_of_unity (k j : Nat) (hj : j ≤ 2^k) :
+    (wArr arithC k).getD j arithC.zero = Complex.exp (2 * Real.pi * I / ((2^k : Nat) : ℂ)) ^ j := by
+  rw [getD_wArr arithC k j hj, wC_eq k j hj]; rfl
+
+/-- **`fft_internal` is the discrete Fourier transform** (iterative Cooley–Tukey over the bit-reversal table),
+    on an object with ANY call history: forward `∑ₛ vₛ ζ^{ps}`, inverse `(1/n) ∑ₛ vₛ ζ^{-ps}`, `ζ = e^{2πi/n}`. -/
+theorem fft_internal_is_dft (h : List (Op ℂ)) (m : Nat) (inv : Bool) (buf : Array ℂ) (hb : buf.size = 2^m)
+    (p : Nat) (hp : p < 2^m) :
+    rdA arithC (fftInternal arithC { after arithC h with buf := buf } (2^m) inv).buf p
+      = if inv then dft (zeta m)⁻¹ (2^m) (rdA arithC buf) p * (1 / ((2^m : Nat) : ℂ))
+        else dft (zeta m) (2^m) (rdA arithC buf) p := by
+  obtain ⟨k, _, c⟩ := reach_after arithC h
+  rw [fftInternal_canon arithC k m _ (canon_withBuf c buf)]
+  exact (fftRef_dft m inv buf hb).2 p hp
+
+/-- **`multiply_into` adds exactly the integer convolution** (exact arithmetic, any call history). -/
+theorem multiply_into_exact (h : List (Op ℂ)) (a b : Array Int) (res : List Int) :
+    (multiplyInto arithC (after arithC h) a b res).2 = addPrefix res (convSpec a b) := by
+  rw [(multiplyInto_reach arithC _ (reach_after arithC h) a b res).1, multiplyIntoRef_exact]
+
+/-- **`multiply` returns exactly the integer convolution** (exact arithmetic, any call history, positive and
+    negative coefficients alike, all lengths). -/
+theorem multiply_exact (h : List (Op ℂ)) (a b : Array Int) :
+    (multiply arithC (after arithC h) a b).2 = convSpec a b := by
+  by_cases he : a.size = 0 ∨ b.size = 0
+  · rw [(multiply_empty arithC _ a b he []).1]
+    unfold convSpec; rw [if_pos he]
+  · have hl : (multiply arithC (after arithC h) a b).2.length = (convSpec a b).length := by
+      rw [multiply_len arithC _ a b (by omega) (by omega)]
+      unfold convSpec; rw [if_neg he]; simp
+    have := multiply_into_adds arithC (after arithC h) a b (List.replicate (a.size + b.size - 1) 0)
+    rw [multiply_into_exact] at this
+    -- 0 + x = x on both sides
+    have z : ∀ (l : List Int), addPrefix (List.replicate l.length 0) l = l := by
+      intro l
+      induction l with
+      | nil => rfl
+      | cons x l ih => rw [List.length_cons, List.replicate_succ, addPrefix, ih]; simp
+    have hc : (convSpec a b).length = a.size + b.size - 1 := by
+      unfold convSpec; rw [if_neg he]; simp
+    rw [← hc, z, ← hl, z] at this
+    exact this.symm
+
+/-- **Forward transform of both operands, pointwise product, inverse transform yields the coefficients of the
+    direct `multiply`** (followed by zeros up to the transform size `2^m ≥ |a|+|b|-1`), in exact arithmetic, on an
+    object with any call history — and also when the inverse transform is taken on a brand-new object. -/
+theorem fft_mul_inv_eq_multiply (h : List (Op ℂ)) (a b : Array Int) (m : Nat) (ha : a.size ≠ 0) (hb : b.size ≠ 0)
+    (hlen : a.size + b.size - 1 ≤ 2^m) :
+    result arithC (after arithC h) (.fftMulInv a b (2^m))
+      = .ok (.ints ((multiply arithC (after arithC h) a b).2 ++ List.replicate (2^m - (a.size + b.size - 1)) 0))
+    ∧ result arithC (after arithC h) (.fftMulInvFresh a b (2^m))
+      = .ok (.ints ((multiply arithC (after arithC h) a b).2 ++ List.replicate (2^m - (a.size + b.size - 1)) 0)) := by
+  rw [multiply_exact, (call_reach arithC _ (reach_after arithC h) _).1,
+    (call_reach arithC _ (reach_after arithC h) _).1]
+  simp only [resultRef]
+  rw [fftMulInvRef?_exact a b m ha hb hlen, range_map_convAt a b (2^m) ha hb hlen]
+  exact ⟨rfl, rfl⟩
+
+end LevelB
+
 /-! ### non-vacuity -/
 
 /-- A deliberately lawless arithmetic on `Int` (nothing is associative, `tw` is arbitrary). -/
@@ -169,5 +246,16 @@ example : (multiply junk (after junk [.updateN 16, .multiply #[1, 2, 3] #[4, 5]]
 
 example : (multiply junk (new junk) #[1, -2, 5] #[3, 4]).2.length = 4 :=
   multiply_len junk _ _ _ (by decide) (by decide)
+
+/-- Level B on a concrete input with negative coefficients and a history: (1 - 2x + 3x²)(4 + 5x) . -/
+example : (multiply arithC (after arithC [.updateN 64, .multiply #[7] #[9, 9]]) #[1, -2, 3] #[4, 5]).2 = [4, -3, 2, 15] := by
+  rw [multiply_exact]; decide
+
+example : result arithC (after arithC [.fft #[1, 1] 16]) (.fftMulInv #[1, -2, 3] #[4, 5] (2^2))
+    = .ok (.ints [4, -3, 2, 15]) := by
+  rw [(fft_mul_inv_eq_multiply _ _ _ 2 (by decide) (by decide) (by decide)).1, multiply_exact]
+  have : convSpec #[1, -2, 3] #[4, 5] ++ List.replicate (2^2 - ((#[1, -2, 3] : Array Int).size + (#[4, 5] : Array Int).size - 1)) 0
+      = [4, -3, 2, 15] := by decide
+  rw [this]
 
 end Rlib.C04
